@@ -18,12 +18,24 @@ def sh(cmd, cwd=None, timeout=3000, e=None):
     return r.returncode, r.stdout + r.stderr
 patch = os.path.join(seed, "change%s.diff" % n)
 demo = os.path.join(seed, "demo%s_test.go" % n)
+stored = "/verif/seeded/%s-%s" % (ID, n)
+if not os.path.exists(patch) and os.path.exists(os.path.join(stored, "patch.diff")):
+    # re-evaluation from the stored copy
+    shutil.copy(os.path.join(stored, "patch.diff"), "/tmp/seedeval_%s_%s.diff" % (ID, n))
+    shutil.copy(os.path.join(stored, "demo_test.go.txt"), "/tmp/seedeval_%s_%s_test.go" % (ID, n))
+    patch, demo = "/tmp/seedeval_%s_%s.diff" % (ID, n), "/tmp/seedeval_%s_%s_test.go" % (ID, n)
 src = open(demo).read()
 m = re.search(r"//\s*package dir:\s*(\S+)", src)
 pkgdir = m.group(1).strip("./") if m else None
 tests = re.findall(r"^func (Test\w+)\(", src, re.M)
 wt = tempfile.mkdtemp(prefix="seedwt_", dir="/tmp"); os.rmdir(wt)
 meta = {"property": ID, "n": n, "package_dir": pkgdir, "demo_tests": tests}
+old_meta = {}
+if os.path.exists(os.path.join(stored, "meta.json")):
+    old_meta = json.load(open(os.path.join(stored, "meta.json")))
+    for k in ("suite_note",):
+        if k in old_meta:
+            meta[k] = old_meta[k]
 try:
     rc, out = sh("git -C /repo worktree add --detach %s HEAD -q" % wt)
     assert rc == 0, out
@@ -67,8 +79,9 @@ try:
             shutil.rmtree(rd)
     out_dir = "/verif/seeded/%s-%s" % (ID, n)
     os.makedirs(out_dir, exist_ok=True)
-    shutil.copy(patch, os.path.join(out_dir, "patch.diff"))
-    shutil.copy(demo, os.path.join(out_dir, "demo_test.go.txt"))
+    if os.path.abspath(patch) != os.path.abspath(os.path.join(out_dir, "patch.diff")):
+        shutil.copy(patch, os.path.join(out_dir, "patch.diff"))
+        shutil.copy(demo, os.path.join(out_dir, "demo_test.go.txt"))
     notes = os.path.join(seed, "notes.md")
     if os.path.exists(notes):
         shutil.copy(notes, os.path.join(out_dir, "notes.md"))
